@@ -700,7 +700,7 @@ def main(pid, build_cases, files, replays=None, level="model_checking", notes=No
     cases = build_cases(args.tier)
     if args.only:
         cases = [c for c in cases if fnmatch.fnmatch(c[0], args.only)]
-    case_timeout = 900 if args.tier == "quick" else 3600
+    case_timeout = 300 if args.tier == "quick" else 3600
     results = run_cases(pid, args.tier, cases, jobs=args.jobs, case_timeout=case_timeout)
     wall = time.time() - t0
 
